@@ -5,6 +5,7 @@ mod common;
 mod rng;
 mod c11;
 mod c12;
+mod c02;
 
 use std::io::{BufWriter, Write};
 
@@ -25,6 +26,7 @@ fn main() {
             match prop {
                 "C11" => c11::gen(tier, seed, &mut out),
                 "C12" => c12::gen(tier, seed, &mut out),
+                "C02" => c02::gen(tier, seed, &mut out),
                 _ => {
                     eprintln!("unknown property {}", prop);
                     std::process::exit(2);
@@ -43,6 +45,13 @@ fn main() {
                 if toks[0] == "C12" {
                     // events and number table are derived from the document: regenerate the whole line
                     writeln!(out, "{}", c12::line_for(&common::unhex(toks[1]))).unwrap();
+                    continue;
+                }
+                if toks[0] == "C02" {
+                    // the glyph is regenerated from (seed, index); the whole line is derived from it
+                    if let Some(l) = c02::line_for(toks[1].parse().unwrap(), toks[2].parse().unwrap(), toks[3]) {
+                        writeln!(out, "{}", l).unwrap();
+                    }
                     continue;
                 }
                 let obs = replay_one(&toks);
